@@ -1,20 +1,8 @@
 #![no_main]
 use libfuzzer_sys::fuzz_target;
-use vharness::{fuzzing, props::simprops::*};
-// histories against the reference session model; the first byte selects the property
+use vharness::fuzzing;
+// histories against the reference session model; the first byte (or $VERIF_HIST_SEL)
+// selects the property: C06, C07, C08, C09, C10, C13, C15
 fuzz_target!(|data: &[u8]| {
-    let (sel, rest) = match data.split_first() {
-        Some(x) => x,
-        None => return,
-    };
-    let r = match sel % 7 {
-        0 => fuzzing::fuzz_struct::<C06>(rest),
-        1 => fuzzing::fuzz_struct::<C07>(rest),
-        2 => fuzzing::fuzz_struct::<C08>(rest),
-        3 => fuzzing::fuzz_struct::<C09>(rest),
-        4 => fuzzing::fuzz_struct::<C10>(rest),
-        5 => fuzzing::fuzz_struct::<C13>(rest),
-        _ => fuzzing::fuzz_struct::<C15>(rest),
-    };
-    fuzzing::check("hist", r);
+    fuzzing::check("hist", fuzzing::fuzz_hist(data));
 });
